@@ -8,11 +8,11 @@ import (
 )
 
 var (
-	dbs    = []string{"db0", "db1"}
-	rps    = []string{"rp0", "rp1", "autogen"}
-	users  = []string{"u0", "u1"}
-	durs   = []time.Duration{0, time.Hour, 24 * time.Hour, 7 * 24 * time.Hour, 30 * time.Minute, -time.Hour}
-	t2000  = time.Date(2000, 1, 1, 0, 0, 0, 0, time.UTC).UnixNano()
+	dbs   = []string{"db0", "db1"}
+	rps   = []string{"rp0", "rp1", "autogen"}
+	users = []string{"u0", "u1"}
+	durs  = []time.Duration{0, time.Hour, 24 * time.Hour, 7 * 24 * time.Hour, 30 * time.Minute, -time.Hour}
+	t2000 = time.Date(2000, 1, 1, 0, 0, 0, 0, time.UTC).UnixNano()
 	// offsets from 2000-01-01; the last two land on the Unix epoch itself and
 	// an hour before it (group boundaries at time 0, pre-1970 timestamps)
 	epochs = []int64{0, int64(time.Hour), int64(24 * time.Hour), -int64(time.Hour), int64(36 * time.Hour), int64(10 * 24 * time.Hour), -t2000, -t2000 - int64(time.Hour)}
@@ -84,6 +84,9 @@ func GenCmdBiased(t *rapid.T, l string, b Bias) Cmd {
 			return CmdRemoveShardOwner(uint64(rapid.IntRange(1, 8).Draw(t, l+".shard")), uint64(rapid.IntRange(1, 5).Draw(t, l+".node")))
 		case k == 12:
 			return CmdDeleteDataNode(uint64(rapid.IntRange(1, 5).Draw(t, l+".node")))
+		case k == 13:
+			// a group marked deleted lingers until it is pruned; its shards keep their owners
+			return CmdDeleteShardGroup("db0", "rp0", uint64(rapid.IntRange(1, 4).Draw(t, l+".sg")))
 		}
 	}
 	return GenCmd(t, l)
